@@ -186,7 +186,7 @@ type seqRec struct {
 	Gen    string     `json:"gen"`
 	Seed   int        `json:"seed"`
 	Ids    []int      `json:"ids"`
-	Ops    [][3]int   `json:"ops"` // [0,id,0] append leaf(id); [1,pos,id] Update(leaf index of pos, leaf(id))
+	Ops    [][3]int   `json:"ops"` // [0,id,0] append leaf(id); [1,pos,id] Update(leaf index of pos, leaf(id)); [2,0,0] re-open from the store
 	Qs     [][]int    `json:"qs"`  // query sets (value ids) to prove after the script
 	RWIdx  []int      `json:"rwidx"`
 	St     st         `json:"st"`
@@ -232,6 +232,13 @@ func seqCase(gen string, seed int, ids []int, ops [][3]int, qs [][]int, rwidx []
 		if op[0] == 0 {
 			err = t.Append(leaf(seed, op[1]))
 			cur = append(cur, op[1])
+		} else if op[0] == 2 {
+			// re-open from the store and CONTINUE on the re-opened object: everything observed below (state, later
+			// Append / Update, proofs, right witnesses) depends on what saveInfo wrote
+			var t2 *rmt.RegularMerkleTree
+			if t2, err = rmt.NewRegularMerkleTreeWithPastData(db); err == nil {
+				t = t2
+			}
 		} else {
 			err = t.Update([]uint64{leafIdx(t.Size(), op[1])}, [][]byte{leaf(seed, op[2])})
 			cur[op[1]] = op[2]
@@ -541,6 +548,27 @@ func proofCase(seed, n int, ups [][2]int, qs []int, withTampers bool, r *hx.Rng)
 		i2 := append([]uint64{proof.Idxs[i]}, proof.Idxs...)
 		rec.Tampers = append(rec.Tampers, tamper{K: 4, I: i, V: verify(q2, &rmt.Proof{Size: proof.Size, Idxs: i2, SiblingHashes: proof.SiblingHashes}, root)})
 	}
+	// a claim for an ANCESTOR index (internal / pass-through node) carrying the honest leaf hash, put in front, while the
+	// leaf itself is claimed with another hash: accepted when the claim for the ancestor shadows the value carried up
+	// from the (false) leaf claim
+	for i, q := range qs {
+		if q < 0 || i > 3 {
+			continue
+		}
+		for up := uint(1); up <= 3 && proof.Idxs[i]>>up >= 2; up++ {
+			q2 := append([][]byte{qh[i]}, qh...)
+			q2[i+1] = oh(i)
+			i2 := append([]uint64{proof.Idxs[i] >> up}, proof.Idxs...)
+			rec.Tampers = append(rec.Tampers, tamper{K: 6, I: i*8 + int(up), V: verify(q2, &rmt.Proof{Size: proof.Size, Idxs: i2, SiblingHashes: proof.SiblingHashes}, root)})
+		}
+	}
+	// proof.Size is not authenticated: other sizes with the same indexes / sibling hashes
+	for _, sz := range []int{n - 1, n + 1, 2 * n, n / 2, n + 2, 1} {
+		if sz < 1 || sz == n {
+			continue
+		}
+		rec.Tampers = append(rec.Tampers, tamper{K: 5, I: sz, V: verify(qh, &rmt.Proof{Size: uint64(sz), Idxs: proof.Idxs, SiblingHashes: proof.SiblingHashes}, root)})
+	}
 	// idx of query qi replaced by the idx of an unqueried leaf j
 	for tries := 0; tries < 3 && len(seen) < n && len(qs) > 0; tries++ {
 		qi := r.Intn(len(qs))
@@ -827,6 +855,13 @@ func main() {
 	}
 	// size 0 tree
 	o.Put(proofCase(seed, 0, nil, []int{-1}, false, r))
+	// the last leaf of trees whose right edge has pass-through nodes (the ancestor-claim tampering needs them)
+	for _, n := range []int{7, 9, 11, 13, 17, 19, 21, 25, 33, 35, 37, 41, 49, 65, 67} {
+		if n <= *pmax {
+			o.Put(proofCase(seed, n, nil, []int{n - 1}, true, r))
+			o.Put(proofCase(seed, n, nil, []int{n - 1, 0}, true, r))
+		}
+	}
 	// random subsets (random order), absent queries, duplicates, after updates
 	for i := 0; i < *nproof; i++ {
 		n := 1 + r.Intn(*pmax)
@@ -891,12 +926,21 @@ func main() {
 		}
 		return qs
 	}
+	// every explicit script is run as given and with a re-open step after the initial appends and after every operation
+	putSeq := func(gen string, seed int, ids []int, ops [][3]int, qs [][]int, rwidx []int) {
+		o.Put(seqCase(gen, seed, ids, ops, qs, rwidx))
+		ro := [][3]int{{2, 0, 0}}
+		for _, op := range ops {
+			ro = append(ro, op, [3]int{2, 0, 0})
+		}
+		o.Put(seqCase(gen+"+reopen", seed, ids, ro, qs, rwidx))
+	}
 	for _, ids := range [][]int{{1, 1}, {1, 1, 3}, {1, 2, 2}, {1, 1, 1, 1}, {1, 1, 1, 1, 1}, {1, 2, 1, 2}, {1, 2, 1, 2, 1, 2}, {1, 2, 3, 4, 1, 2, 3, 4},
 		{1, 1, 2, 2, 3, 3, 4}, {5, 1, 1, 6, 7, 7, 8, 9, 9}, {1, 2, 3, 3, 3, 3, 4, 4, 5, 6, 6}} {
 		qs := append(singles(ids), []int{ids[0], ids[0]}, []int{ids[0], ids[len(ids)-1]}, []int{ids[len(ids)-1], ids[0], ids[len(ids)/2]})
-		o.Put(seqCase("duplicates", seed, ids, nil, qs, allIdx(len(ids))))
+		putSeq("duplicates", seed, ids, nil, qs, allIdx(len(ids)))
 		// and one more leaf appended after the twins, equal to the last one
-		o.Put(seqCase("duplicates+append", seed, ids, [][3]int{{0, ids[len(ids)-1], 0}, {0, 77, 0}}, append(singles(ids), []int{77}), allIdx(len(ids)+2)))
+		putSeq("duplicates+append", seed, ids, [][3]int{{0, ids[len(ids)-1], 0}, {0, 77, 0}}, append(singles(ids), []int{77}), allIdx(len(ids)+2))
 	}
 	// Update of the last unpaired leaf (n = 1 mod 4), Append, proofs/witnesses; then a second Update
 	for _, n := range []int{5, 9, 13, 17, 3, 7} {
@@ -905,15 +949,29 @@ func main() {
 			ids[i] = 10 + i
 		}
 		after := append(append([]int{}, ids[:n-1]...), 200, 201)
-		o.Put(seqCase("update-last+append", seed, ids, [][3]int{{1, n - 1, 200}, {0, 201, 0}}, singles(after), allIdx(n+1)))
+		putSeq("update-last+append", seed, ids, [][3]int{{1, n - 1, 200}, {0, 201, 0}}, singles(after), allIdx(n+1))
 		after2 := append([]int{}, after...)
 		after2[n-1] = 202
-		o.Put(seqCase("update-last+append+update", seed, ids, [][3]int{{1, n - 1, 200}, {0, 201, 0}, {1, n - 1, 202}, {0, 203, 0}}, singles(append(after2, 203)), allIdx(n+2)))
+		putSeq("update-last+append+update", seed, ids, [][3]int{{1, n - 1, 200}, {0, 201, 0}, {1, n - 1, 202}, {0, 203, 0}}, singles(append(after2, 203)), allIdx(n+2))
 	}
 	// Update that makes a leaf equal to the append-path leaf, then Append
-	o.Put(seqCase("update-to-duplicate+append", seed, []int{1, 2, 3}, [][3]int{{1, 0, 3}, {0, 4, 0}}, [][]int{{2}, {4}, {3}, {2, 4}}, allIdx(4)))
-	o.Put(seqCase("update-to-duplicate+append", seed, []int{1, 2, 3, 4, 5, 6, 7}, [][3]int{{1, 2, 7}, {0, 8, 0}, {1, 0, 8}, {0, 9, 0}}, [][]int{{2}, {4}, {5}, {6}, {9}, {2, 9}}, allIdx(9)))
-	// random scripts over a small alphabet (many duplicates); values that an Update has overwritten are not queried
+	putSeq("update-to-duplicate+append", seed, []int{1, 2, 3}, [][3]int{{1, 0, 3}, {0, 4, 0}}, [][]int{{2}, {4}, {3}, {2, 4}}, allIdx(4))
+	putSeq("update-to-duplicate+append", seed, []int{1, 2, 3, 4, 5, 6, 7}, [][3]int{{1, 2, 7}, {0, 8, 0}, {1, 0, 8}, {0, 9, 0}}, [][]int{{2}, {4}, {5}, {6}, {9}, {2, 9}}, allIdx(9))
+	// Update on sizes whose top binary digit is the only / highest append-path entry (powers of two and neighbours),
+	// then Append: the refreshed append path is what the next root is built from
+	for _, n := range []int{1, 2, 3, 4, 6, 8, 12, 16, 24, 32} {
+		ids := make([]int, n)
+		for i := range ids {
+			ids[i] = 10 + i
+		}
+		for _, pos := range []int{0, n / 2, n - 1} {
+			after := append(append([]int{}, ids...), 301, 302)
+			after[pos] = 300
+			putSeq("update+append", seed, ids, [][3]int{{1, pos, 300}, {0, 301, 0}, {0, 302, 0}}, singles(after), allIdx(n+2))
+		}
+	}
+	// random scripts over a small alphabet (many duplicates) with re-open steps; every value of the final list is
+	// queried (queries that hit the stale hash->location index are classified by the oracle, not filtered here)
 	for i := 0; i < *nseq; i++ {
 		n := 1 + r.Intn(14)
 		ids := make([]int, n)
@@ -921,26 +979,25 @@ func main() {
 			ids[j] = 1 + r.Intn(4)
 		}
 		cur := append([]int{}, ids...)
-		gone := map[int]bool{}
 		ops := [][3]int{}
-		for j := r.Intn(5); j > 0; j-- {
-			if r.Bool() {
+		for j := r.Intn(7); j > 0; j-- {
+			switch r.Intn(5) {
+			case 0, 1:
 				id := 1 + r.Intn(6)
 				ops = append(ops, [3]int{0, id, 0})
 				cur = append(cur, id)
-			} else {
+			case 2, 3:
 				p, id := r.Intn(len(cur)), 1+r.Intn(6)
-				gone[cur[p]] = true
+				if i%2 == 1 {
+					id = 100 + 10*i + j // fresh value: no repeated values come from this Update
+				}
 				ops = append(ops, [3]int{1, p, id})
 				cur[p] = id
+			default:
+				ops = append(ops, [3]int{2, 0, 0})
 			}
 		}
-		qs := [][]int{}
-		for _, q := range singles(cur) {
-			if !gone[q[0]] {
-				qs = append(qs, q)
-			}
-		}
+		qs := singles(cur)
 		if len(qs) > 1 {
 			qs = append(qs, []int{qs[0][0], qs[len(qs)-1][0], qs[0][0]})
 		}
